@@ -24,6 +24,7 @@ PROPS = {
             "C08_metropolis_balance", "C08_heatbath_balance", "C08_offdiag_untouched_metropolis",
             "C08_offdiag_untouched_heatbath", "C08_count_is_live", "C08_weight_le_maxweight",
             "C08_empty_slot_headroom", "C08_acceptances_are_probabilities",
+            "C08_slot_kernel_detailed_balance", "C08_metropolis_slot_good", "C08_heatbath_slot_good", "C08_slot_kernel_probability",
         ],
         "assumptions": [
             "weights, beta are dyadic rationals so that every f64 product the code forms is exact; quotients are compared with a 2^-40 tolerance",
@@ -199,7 +200,9 @@ PROPS = {
         "expected_theorems": ["C01_two_site_elements", "C01_transverse_elements", "C01_longitudinal_elements", "C01_weight_fill_ratio",
                               "C01_metropolis_slot_reversible", "C01_slot_stationary_empty", "C01_slot_stationary_bond",
                               "C01_cluster_flip_keeps_weight", "C01_cluster_flip_reversible", "C01_broken_cluster_never_flips",
-                              "C01_reversible_is_stationary", "C01_sweep_stationary", "C01_offset_accounting"],
+                              "C01_reversible_is_stationary", "C01_sweep_stationary", "C01_offset_accounting"
+            , "C01_metropolis_update_stationary", "C01_metropolis_update_stationary_pointwise", "C01_configuration_space_complete", "C01_configuration_space_ok", "C01_sweep_is_composition_of_slot_kernels", "C01_slot_kernel_detailed_balance", "C01_stationary_kernels_compose",
+        ],
         "assumptions": [
             "PARTIAL: proved are (i) the matrix elements, (ii) reversibility of every elementary move of the default pipeline w.r.t. the SSE configuration weight, (iii) that reversible stochastic kernels are stationary and that sweeps of stationary kernels are stationary. "
             "Not proved in Coq: the identification of the concrete sweep programs with finite indexed kernels, ergodicity, and the estimator identities <n_b> = beta <H_b>, E = offset - <n>/beta (Sandvik's SSE derivation); these are covered by the exact-diagonalisation oracle",
@@ -213,7 +216,9 @@ PROPS = {
         "oracle_props": ["C02"],
         "property_files": ["C02.v"],
         "expected_theorems": ["C02_heatbath_slot_reversible", "C02_same_ratio_as_metropolis", "C02_table_length", "C02_table_entry",
-                              "C02_weight_le_maxweight", "C02_all_substates_scanned", "C02_offdiag_untouched"],
+                              "C02_weight_le_maxweight", "C02_all_substates_scanned", "C02_offdiag_untouched"
+            , "C02_heatbath_update_stationary", "C02_heatbath_update_stationary_pointwise", "C02_slot_kernel_detailed_balance", "C02_heatbath_slot_total",
+        ],
         "assumptions": [
             "PARTIAL as C01: slot-level reversibility of the heat-bath program w.r.t. the same configuration weight is proved for every weight table; convergence of the whole chain is covered by the exact-diagonalisation oracle",
             "table invalidation when interactions change is exercised through the generic histories (heat bath switched on before / after adding interactions) only",
